@@ -202,6 +202,11 @@ pub fn generate_pattern_code(
     let mut end_jumps = Vec::new();
     let mut next_set_jumps = Vec::new();
 
+    let all_names: std::collections::BTreeSet<String> = binding_sets
+        .iter()
+        .flat_map(|set| set.bindings.iter().map(|b| b.name.clone()))
+        .collect();
+
     for (i, binding_set) in binding_sets.iter().enumerate() {
         // Patch jumps from previous iteration that should skip to this binding set
         for jump in next_set_jumps.drain(..) {
@@ -265,10 +270,15 @@ pub fn generate_pattern_code(
         // If we get here, all checks passed - extract bindings
         // Sort by name to ensure consistent ordering across binding sets (important for unions
         // where different variants may have bindings in different field orders)
-        let mut sorted_bindings: Vec<_> = binding_set.bindings.iter().collect();
-        sorted_bindings.sort_by(|a, b| a.name.cmp(&b.name));
-        for binding in sorted_bindings {
-            generate_value_access(codegen, &binding.path);
+        // One slot per name the whole pattern binds, in name order — the order and number of locals
+        // the compiler registers. A set that does not bind one of the names (a star over a variant
+        // without that field) stores nil for it, and a name a set binds twice (the same binder in
+        // two positions of an alternative) is stored once.
+        for name in &all_names {
+            match binding_set.bindings.iter().find(|b| &b.name == name) {
+                Some(binding) => generate_value_access(codegen, &binding.path),
+                None => codegen.add_instruction(Instruction::Tuple(quiver_core::types::NIL)),
+            }
             codegen.add_instruction(Instruction::Store);
         }
 
